@@ -103,8 +103,20 @@ class C16(Prop):
             if container in ("polars_uint", "np_uint"):
                 rows = [[abs(v) for v in r] for r in rows]
                 grid = [abs(g) for g in grid]  # a feature grid consists of values the column can take
+            gcont = rng.choice(["list", "np", "polars", "polars_named"])
+            r_ = rng.random()
+            if container == "np_int" and r_ < 0.3:
+                # a single-precision grid for an int64 matrix whose other columns hold values beyond 2**24: the matrix must be
+                # promoted to a dtype that holds BOTH (float64), not to the grid's
+                rows = [[v if q == j else v + 2**24 + 1 for q, v in enumerate(r)] for r in rows]
+                gcont = "np_f32"
+            elif container == "np_uint" and r_ < 0.3:
+                # an int8 grid for a uint16 matrix whose other columns hold values above 127
+                rows = [[v if q == j else v + 200 for q, v in enumerate(r)] for r in rows]
+                grid = [int(abs(g)) % 100 for g in grid]
+                gcont = "np_i8"
             yield {"stream": "pd", "container": container, "rows": rows, "j": j, "k": kk, "grid": grid,
-                   "grid_container": rng.choice(["list", "np", "polars", "polars_named"]), "w": w, "n_max": nmax, "seed": seed, "int_pred": rng.random() < 0.3,
+                   "grid_container": gcont, "w": w, "n_max": nmax, "seed": seed, "int_pred": rng.random() < 0.3,
                    "pred_ret": rng.choice(["np", "np", "polars", "list_np"]),
                    # a Python list X in which equal rows are ONE object occurring several times
                    "share_rows": container in ("list", "list_np_int_rows") and rng.random() < 0.5,
@@ -130,6 +142,10 @@ class C16(Prop):
         grid = case["grid"]
         if case["grid_container"] == "np":
             grid = np.array(grid, dtype=float)
+        elif case["grid_container"] == "np_f32":
+            grid = np.array(grid, dtype=np.float32)
+        elif case["grid_container"] == "np_i8":
+            grid = np.array(grid, dtype=np.int8)
         elif case["grid_container"] == "polars":
             grid = pl.Series([float(g) for g in grid])
         elif case["grid_container"] == "polars_named":
